@@ -39,6 +39,9 @@ def generate(rng, tier: str, index: int) -> dict:
     ipv6 = rng.chance(0.25)
     nn = rng.choice([1, 1, 2, 2, 3])
     nbrs = RW.gen_neighbors(rng, nn, addpath, ipv6)
+    mpls = rng.chance(0.3)
+    for nb in nbrs:
+        nb['mpls'] = mpls
     nvar = rng.randint(2, 4)
     variants = RW.gen_variants(rng, nvar)
     prefixes = rng.sample(RW.API_PREFIXES, rng.randint(2, 5)) + (rng.sample(RW.API_PREFIXES6, 1) if ipv6 else [])
@@ -52,7 +55,14 @@ def generate(rng, tier: str, index: int) -> dict:
     def rnd_route():
         p = rng.choice(prefixes)
         v6 = ':' in p
-        return {'p': p, 'pid': None if v6 else rng.choice(pids), 'nh': '2001:db8::1' if v6 else rng.choice(RW.NEXTHOPS), 'v': rng.randint(0, nvar - 1)}
+        r = {'p': p, 'pid': None if v6 else rng.choice(pids), 'nh': '2001:db8::1' if v6 else rng.choice(RW.NEXTHOPS), 'v': rng.randint(0, nvar - 1)}
+        if mpls and not v6 and rng.chance(0.5):
+            # the same prefix as a labelled and as a VPN route (two RDs): distinct routes that must never share a slot
+            r['pid'] = None
+            r['lab'] = 100 + prefixes.index(p)
+            if rng.chance(0.5):
+                r['rd'] = rng.choice(['65000:1', '65000:2'])
+        return r
 
     bursts = []
     for _ in range(rng.randint(1, 5)):
@@ -70,7 +80,7 @@ def generate(rng, tier: str, index: int) -> dict:
                 ops.append({'op': 'ann', 'tgt': tgt, 'gap': gap, 'route': rnd_route()})
             elif k < 0.75:
                 r = rnd_route()
-                ops.append({'op': 'wd', 'tgt': tgt, 'gap': gap, 'route': {'p': r['p'], 'pid': r['pid'], 'nh': r['nh']}})
+                ops.append({'op': 'wd', 'tgt': tgt, 'gap': gap, 'route': {k: v for k, v in r.items() if k != 'v'}})
             elif k < 0.82:
                 ops.append({'op': rng.choice(['wdog-ann', 'wdog-wd']), 'tgt': tgt, 'gap': gap, 'name': rng.choice(['dog', 'cat'])})
             elif k < 0.88:
@@ -135,10 +145,10 @@ class Intended:
 
     def announce(self, r: dict, variants) -> None:
         nh = RW.LOCAL if r['nh'] == 'self' else r['nh']
-        self.t[RW.key_of(r['p'], r.get('pid'), self.nb['addpath'])] = ('present', nh, variants[r['v']]['med'])
+        self.t[RW.rkey(r, self.nb['addpath'])] = ('present', nh, variants[r['v']]['med']) + ((r['lab'],) if r.get('lab') is not None else ())
 
     def withdraw(self, r: dict) -> None:
-        self.t[RW.key_of(r['p'], r.get('pid'), self.nb['addpath'])] = ('absent',)
+        self.t[RW.rkey(r, self.nb['addpath'])] = ('absent',)
 
     def clear(self) -> None:
         for k in list(self.t):
@@ -251,7 +261,8 @@ def execute(plan: dict) -> dict:
                 violations.append(viol('C04/undecodable-update', sess.decode_errors[0][:400]))
                 return
             pv = RW.peer_view(sess.table)
-            rep = {k: (RW.LOCAL if v[0] == 'self' else v[0], v[1]) for k, v in RW.reported_table(peer.neighbor, nb['addpath']).items()}
+            probes['labelled_or_vpn_routes_held'] = probes.get('labelled_or_vpn_routes_held', 0) + sum(1 for k in pv if k[1] in (4, 128))
+            rep = {k: ((RW.LOCAL if v[0] == 'self' else v[0]),) + tuple(v[1:]) for k, v in RW.reported_table(peer.neighbor, nb['addpath']).items()}
             if pv != rep:
                 d = RW.diff_tables(pv, rep, 'peer', 'reported')
                 violations.append(
@@ -273,7 +284,7 @@ def execute(plan: dict) -> dict:
                 if want[0] == 'absent' and have is not None:
                     violations.append(viol('C04/withdrawn-route-present', f'neighbor {nb["peer_ip"]}: {RW.fmt_key(k)} was withdrawn last but the peer holds {have}'))
                     return
-                if want[0] == 'present' and have != (want[1], want[2]):
+                if want[0] == 'present' and have != tuple(want[1:]):
                     violations.append(viol('C04/stale-or-missing-announce', f'neighbor {nb["peer_ip"]}: {RW.fmt_key(k)} last announced as {want[1:]} but the peer holds {have}'))
                     return
 
@@ -284,7 +295,7 @@ def execute(plan: dict) -> dict:
         seen_keys = set()
         for op in b['ops']:
             if op['op'] in ('ann', 'wd'):
-                kk = (op['route']['p'], op['route'].get('pid'))
+                kk = (op['route']['p'], op['route'].get('pid'), op['route'].get('lab'), op['route'].get('rd'))
                 if kk in seen_keys:
                     probes['same_key_twice_in_burst'] += 1
                 seen_keys.add(kk)
